@@ -627,6 +627,8 @@ class Check:
                 if rj.get('own_bytes_corrupted'): probs.append('own bytes corrupted: %s' % rj['own_bytes_corrupted'])
                 if rj.get('hang'): probs.append('hang (deadlock?)')
                 if rj.get('final_state_problems'): probs.append('final state: %s' % rj['final_state_problems'])
+                self.cov['race']['map_cycles'] = rj.get('map_cycles')
+                if rj.get('map_problems'): probs.append('concurrent map/unmap: %s' % rj['map_problems'][0])
                 self.cov['race']['limit_rounds'] = rj.get('limit_rounds')
                 if rj.get('limit_overruns'):
                     lo = 'heap limit overrun under concurrency (no sequential order allows it): %s' % rj['limit_overruns'][0]
